@@ -181,7 +181,9 @@ func (e *Engine) checkInverted(
 	}
 
 	return func(ctx context.Context, resultCh chan<- checkgroup.Result) {
-		innerCh := make(chan checkgroup.Result)
+		// buffered, so that the inner check can exit if the context is
+		// cancelled before its result is received
+		innerCh := make(chan checkgroup.Result, 1)
 		go check(ctx, innerCh)
 		select {
 		case result := <-innerCh:
